@@ -426,6 +426,30 @@ impl CSim {
         }
     }
 
+    /// writes complete and due service calls are made, but the broker stays silent
+    pub fn flush_out(&mut self, steps: usize) {
+        for _ in 0..steps {
+            if !self.loop_alive || self.state() != St::Connected {
+                return;
+            }
+            let has_out = {
+                let w = self.wire.as_ref().unwrap();
+                w.out.len() > w.written
+            };
+            let due = match guarded(|| self.c.next_service_in()) {
+                Ok(d) => matches!(d, Some(x) if x == Duration::from_secs(0)),
+                Err(_) => false,
+            };
+            if has_out {
+                self.apply(&COp::WriteAll);
+            } else if due {
+                self.apply(&COp::Service);
+            } else {
+                return;
+            }
+        }
+    }
+
     /// a fair environment: connections succeed, the broker answers, writes complete, the peer closes after DISCONNECT
     pub fn fair(&mut self, steps: usize) {
         for _ in 0..steps {
@@ -712,6 +736,9 @@ pub enum BOp {
     SucceedStable,
     /// failing CONNACK
     RejectedByBroker,
+    /// real time passes while the client waits for its next attempt (longer than the 40 ms stability period); no
+    /// connection exists meanwhile, so the back-off sequence must be unaffected
+    Pause,
 }
 
 #[derive(Clone, Debug, Serialize, Deserialize, PartialEq, Eq)]
@@ -752,7 +779,7 @@ impl Property for C19 {
 
     fn strategy(&self, tier: Tier) -> BoxedStrategy<BCase> {
         let n = if tier == Tier::Quick { 14 } else { 40 };
-        (dur_strategy(), dur_strategy(), 0u8..3, any::<bool>(), vec(prop_oneof![6 => Just(BOp::Fail), 2 => Just(BOp::SucceedShort), 1 => Just(BOp::SucceedStable), 2 => Just(BOp::RejectedByBroker)], 1..n)).prop_map(|(base, max, stability, jitter, ops)| BCase { base, max, stability, jitter, ops }).boxed()
+        (dur_strategy(), dur_strategy(), 0u8..3, any::<bool>(), vec(prop_oneof![6 => Just(BOp::Fail), 2 => Just(BOp::SucceedShort), 1 => Just(BOp::SucceedStable), 2 => Just(BOp::RejectedByBroker), 1 => Just(BOp::Pause)], 1..n)).prop_map(|(base, max, stability, jitter, ops)| BCase { base, max, stability, jitter, ops }).boxed()
     }
 
     fn check(&self, case: &BCase) -> CaseReport {
@@ -800,6 +827,9 @@ impl Property for C19 {
         let mut k: u32 = 0;
         let mut expected: Vec<Duration> = Vec::new();
         let mut resets = 0;
+        let mut pauses = 0;
+        let mut rejected = 0;
+        let mut truncated = false;
         for op in &case.ops {
             if !sim.loop_alive {
                 break;
@@ -813,11 +843,19 @@ impl Property for C19 {
             }
             let before = sim.reconnect_waits.len();
             match op {
+                BOp::Pause => {
+                    if case.stability % 3 == 1 {
+                        std::thread::sleep(Duration::from_millis(60));
+                        pauses += 1;
+                    }
+                    continue;
+                }
                 BOp::Fail => sim.apply(&COp::ConnectErr),
                 BOp::RejectedByBroker => {
                     sim.apply(&COp::ConnectOk);
-                    sim.fair(6); // CONNECT goes out
+                    sim.flush_out(8); // CONNECT goes out, the broker has not answered yet
                     sim.apply(&COp::Respond { failing_connack: true });
+                    rejected += 1;
                 }
                 BOp::SucceedShort | BOp::SucceedStable => {
                     sim.apply(&COp::ConnectOk);
@@ -849,8 +887,15 @@ impl Property for C19 {
                 expected.push(expected_wait(k));
                 k = k.saturating_add(1);
             } else if sim.loop_alive && sim.panic.is_none() {
+                truncated = true;
                 break;
             }
+        }
+        if truncated {
+            labels.push("harness_truncated_history".into());
+        }
+        if rejected > 0 {
+            labels.push("rejected_by_connack".into());
         }
         if let Some(p) = &sim.panic {
             violations.push(Violation::new("C19.panic", format!("computing the reconnect wait panics: {}", p.chars().map(|c| if c.is_ascii_digit() { '#' } else { c }).take(90).collect::<String>()), format!("{} ; base {:?} max {:?} jitter {}", p, case.base, case.max, case.jitter)));
@@ -884,6 +929,9 @@ impl Property for C19 {
         if case.jitter {
             labels.push("jitter".into());
         }
+        if pauses > 0 {
+            labels.push("time_passes_between_attempts".into());
+        }
         if matches!(case.base, DurSpec::Zero | DurSpec::Max | DurSpec::Nanos(_)) || matches!(case.max, DurSpec::Zero | DurSpec::Max | DurSpec::Nanos(_)) {
             labels.push("degenerate_config".into());
         }
@@ -905,7 +953,7 @@ impl Property for C19 {
     }
 
     fn rule_text(&self) -> String {
-        "ClientSim histories of attempt outcomes (refused, rejected by CONNACK, established briefly, established longer than the stability period) under base / maximum periods from {0, 1 ns, 999 us, 1 ms, 500 ms, 1 s, 7 s, 120 s, 10^6 s, Duration::MAX, random ms} incl. base > max, stability period {0, 40 ms, 1 h} (connection lifetimes 0 / 2 ms / 120 ms of real time, so every comparison has a wide margin) and jitter {none, uniform}; oracle: closed form wait_k = min(b*2^k, m) on the normalised (b, m) without jitter, wait_k in [0, min(b*2^k, m)] with uniform jitter, never above m, k restarts only after a connection that outlived the stability period, and computing the wait never panics; non-trivial = >= 4 consecutive waits, or a stability reset, or a degenerate configuration (0, sub-millisecond, Duration::MAX, base > max); distinct = hash of the case".to_string()
+        "ClientSim histories of attempt outcomes (refused, rejected by CONNACK, established briefly, established longer than the stability period, and pauses of 60 ms of real time between attempts) under base / maximum periods from {0, 1 ns, 999 us, 1 ms, 500 ms, 1 s, 7 s, 120 s, 10^6 s, Duration::MAX, random ms} incl. base > max, stability period {0, 40 ms, 1 h} (connection lifetimes 0 / 2 ms / 120 ms of real time, so every comparison has a wide margin) and jitter {none, uniform}; oracle: closed form wait_k = min(b*2^k, m) on the normalised (b, m) without jitter, wait_k in [0, min(b*2^k, m)] with uniform jitter, never above m, k restarts only after a connection that outlived the stability period, and computing the wait never panics; non-trivial = >= 4 consecutive waits, or a stability reset, or a degenerate configuration (0, sub-millisecond, Duration::MAX, base > max); distinct = hash of the case".to_string()
     }
 
     fn assumptions(&self) -> Vec<String> {
